@@ -1,6 +1,20 @@
-//! C11 check (see /verif/DESIGN.md section 5 and /verif/mc/README-dev.md).
-use mclib::engine::{catch, finish, install_quiet_panic_hook, Ctx, Report, Tier};
-use serde_json::json;
+//! C11 — printing a value as Candid text and parsing it back returns the same value.
+//! See /verif/DESIGN.md section 5 (C11) and /verif/mc/README-dev.md.
+//!
+//! Engine E1: finite, explicitly defined scopes enumerated completely; every element is
+//! printed by the real `Display` / `Debug` impls (as `IDLArgs` and as a single
+//! `IDLValue`), parsed by the real `parse_idl_args` / `parse_idl_value`, annotated by the
+//! real `annotate_types(true, ..)` / `annotate_type(true, ..)` and compared with the
+//! original. The oracle is the identity function, so no reference model is involved.
+mod core;
+mod scope;
+mod sjson;
+
+use crate::core::*;
+use candid::types::value::{IDLArgs, IDLValue};
+use candid::types::{Type, TypeEnv};
+use mclib::engine::{finish, install_quiet_panic_hook, Ctx, Report, Tier};
+use serde_json::Value;
 
 fn parse_args() -> (Tier, Option<String>, Vec<String>) {
     let args: Vec<String> = std::env::args().collect();
@@ -28,18 +42,100 @@ fn parse_args() -> (Tier, Option<String>, Vec<String>) {
     (tier, replay, rest)
 }
 
+fn replay(path: &str) -> i32 {
+    let s = match std::fs::read_to_string(path) {
+        Ok(s) => s,
+        Err(e) => {
+            eprintln!("cannot read {path}: {e}");
+            return 2;
+        }
+    };
+    let j: Value = match serde_json::from_str(&s) {
+        Ok(j) => j,
+        Err(e) => {
+            eprintln!("bad json in {path}: {e}");
+            return 2;
+        }
+    };
+    let case = j.get("case").unwrap_or(&j);
+    let build = || -> Result<(IDLArgs, Vec<Type>), String> {
+        let vals = case.get("values").and_then(|v| v.as_array()).ok_or("case.values missing")?;
+        let tys = case.get("types").and_then(|v| v.as_array()).ok_or("case.types missing")?;
+        let vals: Vec<IDLValue> = vals.iter().map(sjson::value_from_json).collect::<Result<_, _>>()?;
+        let tys: Vec<Type> = tys.iter().map(sjson::type_from_json).collect::<Result<_, _>>()?;
+        Ok((IDLArgs { args: vals }, tys))
+    };
+    let (args, tys) = match build() {
+        Ok(x) => x,
+        Err(e) => {
+            eprintln!("cannot rebuild case from {path}: {e}");
+            return 2;
+        }
+    };
+    let printer = match case.get("printer").and_then(|p| p.as_str()) {
+        Some("Display") => Printer::Display,
+        Some("Debug") => Printer::Debug,
+        _ => {
+            eprintln!("case.printer missing");
+            return 2;
+        }
+    };
+    let forms: Vec<Form> = match case.get("form").and_then(|p| p.as_str()) {
+        Some("args") => vec![Form::Args],
+        Some("value") => vec![Form::Value],
+        _ => vec![Form::Args, Form::Value],
+    };
+    let want_class = j.get("key").and_then(|k| k.as_str()).and_then(|k| k.split('|').nth(3)).map(|s| s.to_string());
+    let env = TypeEnv::new();
+    let mut rep = Report::new();
+    let mut reproduced = false;
+    println!("value (structural): {}", serde_json::to_string(&case["values"]).unwrap_or_default());
+    for f in forms {
+        if f == Form::Value && args.args.len() != 1 {
+            continue;
+        }
+        let t = roundtrip(printer, f, &args, &tys, &env, &mut rep);
+        println!("{} / {}: printed text = {:?}", printer.name(), f.name(), t.text);
+        if t.fails.is_empty() {
+            println!("  round trip ok");
+        }
+        for (class, msg) in &t.fails {
+            println!("  {class}: {msg}");
+            if want_class.as_deref().map(|w| w == *class).unwrap_or(true) {
+                reproduced = true;
+            }
+        }
+    }
+    if reproduced {
+        println!("REPRODUCED property=C11 key={}", j.get("key").and_then(|k| k.as_str()).unwrap_or("?"));
+        1
+    } else {
+        println!("NOT-REPRODUCED property=C11 (the recorded case now round-trips, or fails in a different class)");
+        0
+    }
+}
+
 fn main() {
     install_quiet_panic_hook();
-    let (tier, replay, _rest) = parse_args();
-    if let Some(path) = replay {
-        let _ = path;
-        eprintln!("replay not implemented yet");
-        std::process::exit(2);
+    let (tier, replay_path, _rest) = parse_args();
+    if let Some(path) = replay_path {
+        std::process::exit(replay(&path));
     }
-    let ctx = Ctx::new("C11", tier, tier.pick(120, 1200));
+    let ctx = Ctx::new("C11", tier, tier.pick(55, 880));
     let mut rep = Report::new();
-    let _ = catch(|| ());
-    rep.sample(json!("skeleton"));
-    let code = finish(&ctx, rep, "skeleton", &[], json!({}));
+    let col = Collector::default();
+    let extra = scope::run_all(&ctx, &mut rep, &col);
+    col.flush(&mut rep);
+    let rule = "case = (value(s), the type(s) they were built at, printer in {Display, Debug}, form in {IDLArgs + parse_idl_args + annotate_types, single IDLValue + parse_idl_value + annotate_type}); \
+one evaluation = one print/print-again/parse/annotate(true)/compare round trip; states = distinct values; every level enumerates its scope completely \
+(levels and exact sizes under coverage.levels / coverage.scopes). Non-trivial = the printed text contains an escape, a digit-group underscore or non-ASCII text, \
+or the case was built to need quoting / to cross an abbreviation threshold of the pretty printer (depth 10, 10 vector elements). \
+Equality = IDLValue == with floats by bits (labels by id, variant index ignored); Blob(b) and Vec of the same Nat8 are one value.";
+    let assumptions = [
+        "values are well formed: record fields sorted by unique label id (as the decoder and parser produce them), vectors homogeneous, floats finite, no IDLValue::Number (parser-only)",
+        "re-annotation type = the type the value was built at (type-directed levels) or value_ty() (all others); empty environment",
+        "IDLValue::Vec of Nat8 and IDLValue::Blob with the same bytes are the same value (annotate at vec nat8 always yields Blob)",
+    ];
+    let code = finish(&ctx, rep, rule, &assumptions, extra);
     std::process::exit(code);
 }
